@@ -107,6 +107,18 @@ def generate(rng, tier):
                 texts.append(gen.render(rng, toks, comments=rng.random() < 0.2))
             cases.append(mk_case("c%d" % n, opts, ctxflags, texts, {"hand": hand, "mutated": mutated, "ctxflags": ctxflags}))
             n += 1
+    # names written as paths in the text ("log|level = 5", "servers=a|port = 1") in a schema where an option declared earlier
+    # merely BEGINS with a step's name: a step names a whole name
+    decoy = [Opt("logfile", "str", 0, b"f"), Opt("log", "sec", 0, None, "-", [Opt("lev", "int", 0, 1), Opt("level", "int", 0, 2)]),
+             Opt("servers", "sec", gen.MULTI | gen.TITLE, None, "-", [Opt("port", "int", 0, 10)]), Opt("server", "sec", 0, None, "-", [Opt("port", "int", 0, 20)]),
+             Opt("hostname", "str", 0, None), Opt("host", "sec", gen.MULTI, None, "-", [Opt("n", "int", 0, 0)])]
+    ptexts = [b"log|level = 5\nserver|port = 2001\n", b"servers a { port = 1 }\nserver|port = 7\nservers=a|port = 8\n", b"log|lev = 3\nlog|level = 4\nlogfile = x\n",
+              b"host { n = 1 } host { n = 2 }\nhost=1|n = 9\nhostname = h\n", b"log { level = 6 }\nserver { port = 5 }\nserver|port = 6\nlog|nosuch = 1\n",
+              b"serve|port = 1\n", b"lo|level = 1\n", b"servers|port = 1\n"]
+    for t in ptexts:
+        for ctxflags in (0, NOCASE):
+            cases.append(mk_case("c%d" % n, decoy, ctxflags, [t], {"hand": True, "mutated": False, "ctxflags": ctxflags}))
+            n += 1
     return cases
 
 
